@@ -6,12 +6,16 @@ package main
 import (
 	"fmt"
 	"math/rand"
+	"regexp"
+	"strings"
 	"sync"
 	"sync/atomic"
 	"time"
 
 	nject "github.com/muir/nject/v2"
 )
+
+var markRe = regexp.MustCompile(`MARK-g\d+-i\d+-`)
 
 type concReport struct {
 	lines []string
@@ -124,18 +128,24 @@ func concSingleton(rep *concReport, goroutines int) {
 		time.Sleep(50 * time.Microsecond)
 		return T2{Tag: uint64(100 + n)}
 	})
+	// a side-effect-only singleton (no results) shared by the same chains
+	var sideRuns int64
+	side := nject.Required(nject.Singleton(func() { atomic.AddInt64(&sideRuns, 1) }))
 	const chains = 4
 	invs := make([]func() T2, chains)
 	for i := range invs {
-		if err := nject.Sequence(fmt.Sprintf("S%d", i), single, func(x T2) T2 { return x }).Bind(&invs[i], nil); err != nil {
+		if err := nject.Sequence(fmt.Sprintf("S%d", i), single, side, func(x T2) T2 { return x }).Bind(&invs[i], nil); err != nil {
 			rep.add("singleton", false, "bind: %v", err)
 			return
 		}
 	}
 	res := make([]uint64, goroutines)
 	fin := parallel(goroutines, 20*time.Second, func(g int) { res[g] = invs[g%chains]().Tag })
-	ok := fin && atomic.LoadInt64(&runs) == 1
+	ok := fin && atomic.LoadInt64(&runs) == 1 && atomic.LoadInt64(&sideRuns) == 1
 	detail := ""
+	if atomic.LoadInt64(&sideRuns) != 1 {
+		detail = fmt.Sprintf("the result-less Singleton ran %d times", sideRuns)
+	}
 	for _, v := range res {
 		if v != 101 {
 			ok = false
@@ -253,9 +263,11 @@ func concBind(rep *concReport, goroutines, iters int) {
 					atomic.AddInt64(&bad, 1)
 					detail.Store(fmt.Sprintf("good chain failed: %v", err))
 				}
-			case 1: // fails: missing input
+			case 1: // fails: missing input; the providers carry a name unique to this Bind
 				var inv func() T1
-				err := nject.Sequence("bad", func(a T0) T1 { return T1{Tag: a.Tag} }, func(b T1) T1 { return b }).Bind(&inv, nil)
+				mark := fmt.Sprintf("MARK-g%d-i%d-", g, i)
+				err := nject.Sequence("bad", nject.Provide(mark+"a", func(a T0) T1 { return T1{Tag: a.Tag} }),
+					nject.Provide(mark+"final", func(b T1) T1 { return b })).Bind(&inv, nil)
 				if err == nil {
 					atomic.AddInt64(&bad, 1)
 					detail.Store("bad chain bound")
@@ -268,6 +280,22 @@ func concBind(rep *concReport, goroutines, iters int) {
 					if inv != nil {
 						atomic.AddInt64(&bad, 1)
 						detail.Store("failed Bind touched the invoke variable")
+					}
+					// cross-talk: the trace part of the details must be about this Bind only
+					trace := d
+					if k := strings.Index(d, "func TestRegression"); k >= 0 {
+						trace = d[:k]
+					}
+					if !strings.Contains(trace, mark) {
+						atomic.AddInt64(&bad, 1)
+						detail.Store("DetailedError trace does not mention this Bind's own providers (" + mark + ")")
+					}
+					for _, m := range markRe.FindAllString(trace, -1) {
+						if m != mark {
+							atomic.AddInt64(&bad, 1)
+							detail.Store("DetailedError trace of " + mark + " mentions another Bind's provider " + m)
+							break
+						}
 					}
 				}
 			case 2: // consumes *Debugging
@@ -328,6 +356,9 @@ func runConc(seed int64, rounds int) []string {
 		concIsolation(rep, g, 10+rng.Intn(40), false)
 		concIsolation(rep, 1+g/4, 5+rng.Intn(10), true)
 		concBind(rep, 2+g/2, 3+rng.Intn(6))
+		if r%3 == 0 {
+			concBind(rep, 8, 36) // enough overlapping failing Binds to expose cross-talk between captures
+		}
 	}
 	return rep.lines
 }
